@@ -120,8 +120,8 @@ def directed(tier):
            'mems': [], 'log_crc': None, 'param_crc': None, 'value_seed': 7}
     n = 0
     # payload boundary x packet split: k one-byte variables + floats
-    for nbytes in (24, 25, 26, 27, 28):
-        for nfloat in (0, 3, 6):
+    for nbytes in ((24, 25, 26, 27, 28) if tier == 'quick' else range(14, 31)):
+        for nfloat in ((0, 3, 6) if tier == 'quick' else range(0, 7)):
             nb = nbytes - 4 * nfloat
             if nb < 0 or nb > 14:
                 continue
